@@ -161,6 +161,10 @@ impl SeqModel {
 pub enum Expect {
     /// config must be rejected / unknown tag: exit 1, nothing written
     Reject,
+    /// `-o` and a regular file sits where the output directory of a tag that is to be written
+    /// (or `out` itself) has to be: the tool cannot succeed; it must not report success, must leave
+    /// that file alone and touch nothing outside `out/` (what it wrote for earlier tags is not judged)
+    Blocked { dir: String, decoy: String },
     Seq {
         /// tags whose results are printed (and written with -o), in order, with their stages (None = library error: nothing)
         tags: Vec<(String, Option<Vec<Vec<String>>>)>,
@@ -240,6 +244,18 @@ pub fn predict(snap: &Snap, inv: &Inv, answer_yes: bool, oracle: &mut Oracle, mo
                     TagRes::Stages(s) => tags.push((n, Some(s))),
                     TagRes::LibErr => tags.push((n, None)),
                     TagRes::Unjudgeable => return Pred::Unjudgeable,
+                }
+            }
+            if *output {
+                let outdir = format!("{dir}/out");
+                if tags.iter().any(|(_, st)| st.is_some()) && matches!(snap.get(&outdir), Some(Some(_))) {
+                    return Pred::Judged(Expect::Blocked { dir, decoy: outdir });
+                }
+                for (n, st) in &tags {
+                    let d = format!("{outdir}/{n}");
+                    if st.is_some() && matches!(snap.get(&d), Some(Some(_))) {
+                        return Pred::Judged(Expect::Blocked { dir, decoy: d });
+                    }
                 }
             }
             let pat: Vec<bool> = inv.answer.chars().map(|c| c == 'y').collect();
@@ -449,6 +465,23 @@ fn check_strict(e: &Expect, o: &InvOut, before: &Snap, after: &Snap, inv_i: usiz
             }
             None
         }
+        Expect::Blocked { dir, decoy } => {
+            if o.out.timed_out || o.out.signal.is_some() || o.out.code == Some(0) {
+                return Some(Fail { clause: "exit-status", inv: inv_i, detail: format!("exit {:?} (timed out {}, signal {:?}) although {decoy} is a regular file where an output directory has to be; stdout {:?}", o.out.code, o.out.timed_out, o.out.signal, tail(&o.out.stdout)) });
+            }
+            let outdir = format!("{dir}/out");
+            for (p, c) in before {
+                if (p == decoy || !(p == &outdir || under(p, &outdir))) && after.get(p) != Some(c) {
+                    return Some(Fail { clause: "conservation", inv: inv_i, detail: format!("{p} changed or disappeared") });
+                }
+            }
+            for p in after.keys() {
+                if !before.contains_key(p) && !(p == &outdir || under(p, &outdir)) {
+                    return Some(Fail { clause: "conservation", inv: inv_i, detail: format!("unexpected new path {p}") });
+                }
+            }
+            None
+        }
         Expect::Seq { tags, output, output_all, overwrite, pattern, dir, all_steps } => {
             if o.out.code != Some(0) {
                 return Some(Fail { clause: "exit-status", inv: inv_i, detail: format!("exit {:?} signal {:?}, expected 0; stdout {:?} stderr {:?}", o.out.code, o.out.signal, tail(&o.out.stdout), tail(&o.out.stderr)) });
@@ -647,6 +680,7 @@ fn check_strict(e: &Expect, o: &InvOut, before: &Snap, after: &Snap, inv_i: usiz
 fn may_touch(e: &Expect, p: &str) -> bool {
     match e {
         Expect::Reject => false,
+        Expect::Blocked { dir, decoy } => p != decoy && (p == format!("{dir}/out") || under(p, &format!("{dir}/out"))),
         Expect::Seq { tags, output, dir, .. } => {
             if !*output {
                 return false;
@@ -665,6 +699,7 @@ fn declined_ok(e: &Expect, before: &Snap, p: &str) -> bool {
         Expect::Seq { overwrite, .. } => *overwrite || !before.contains_key(p),
         Expect::Conv { written, .. } => *written,
         Expect::Reject => false,
+        Expect::Blocked { .. } => true,
     }
 }
 
@@ -710,7 +745,12 @@ fn check_relaxed(e: &Expect, fo: &InvOut, rec: &InvOut, before: &Snap, rec_after
             }
         }
     }
-    let _ = rec;
+    // ... and it must have printed what the fault-free run prints: a fault that was swallowed and
+    // changed what the user is told (an input that was skipped, a stage that was not run) is a
+    // failure reported as success
+    if !crash && fo.out.code == Some(0) && fo.faults_fired > 0 && fo.out.stdout != rec.out.stdout {
+        return Some(Fail { clause: "silent-failure", inv: inv_i, detail: format!("exit status 0 although an I/O fault was injected, but stdout differs from the fault-free run: {:?} instead of {:?}", tail(&fo.out.stdout), tail(&rec.out.stdout)) });
+    }
     None
 }
 
